@@ -7,7 +7,7 @@
       Gen/Transform.v lla_to_ecef_*, mat_en_from_ll_*, mat_from_rph_*
     against the hand-written physics of Spec/NavODE.v and the vector definitions below
     (specification-side definitions of this file: vec3 ... sf_body; no axioms). *)
-From Coq Require Import Reals Lra.
+From Coq Require Import Reals Lra Lia.
 From Coquelicot Require Import Coquelicot.
 From PV Require Import Base.RealTac Spec.LibSpecs Spec.Ellipsoid Spec.NavODE.
 From PV Require Import Gen.Earth Gen.Transform Gen.C03Gen Proofs.C16Proofs.
@@ -359,3 +359,673 @@ Proof.
     rewrite E0, E1, E2. ring.
 Qed.
 End AtRest.
+
+(** * 3. A moving body: generate_imu's accelerometer / gyro formulas invert the navigation equations *)
+
+(** inertial velocity as generate_imu forms it:  v_i = C_in v_n + Omega x r_i  (Omega = (0,0,RATE)),
+    at geodetic position (lat, lonI, alt) with lonI the inertial longitude *)
+Definition vi_x (lat lonI alt vN vE vD : R) : R :=
+  dot3 (mat_en_from_ll_m00 lat lonI) (mat_en_from_ll_m01 lat lonI) (mat_en_from_ll_m02 lat lonI) vN vE vD
+  - RATE_ * lla_to_ecef_r1 lat lonI alt.
+Definition vi_y (lat lonI alt vN vE vD : R) : R :=
+  dot3 (mat_en_from_ll_m10 lat lonI) (mat_en_from_ll_m11 lat lonI) (mat_en_from_ll_m12 lat lonI) vN vE vD
+  + RATE_ * lla_to_ecef_r0 lat lonI alt.
+Definition vi_z (lat lonI alt vN vE vD : R) : R :=
+  dot3 (mat_en_from_ll_m20 lat lonI) (mat_en_from_ll_m21 lat lonI) (mat_en_from_ll_m22 lat lonI) vN vE vD.
+
+Lemma derive_lin3 (m0 m1 m2 u0 u1 u2 p : R -> R) (t dm0 dm1 dm2 du0 du1 du2 dp k : R) :
+  is_derive m0 t dm0 -> is_derive m1 t dm1 -> is_derive m2 t dm2 ->
+  is_derive u0 t du0 -> is_derive u1 t du1 -> is_derive u2 t du2 -> is_derive p t dp ->
+  is_derive (fun s => dot3 (m0 s) (m1 s) (m2 s) (u0 s) (u1 s) (u2 s) + k * p s) t
+    (dot3 dm0 dm1 dm2 (u0 t) (u1 t) (u2 t) + dot3 (m0 t) (m1 t) (m2 t) du0 du1 du2 + k * dp).
+Proof.
+  intros H0 H1 H2 H3 H4 H5 H6. unfold dot3.
+  auto_derive.
+  - split_all; try exact I; eexists; eassumption.
+  - rewrite (is_derive_unique (fun x : R => m0 x) t dm0 H0), (is_derive_unique (fun x : R => m1 x) t dm1 H1),
+      (is_derive_unique (fun x : R => m2 x) t dm2 H2), (is_derive_unique (fun x : R => u0 x) t du0 H3),
+      (is_derive_unique (fun x : R => u1 x) t du1 H4), (is_derive_unique (fun x : R => u2 x) t du2 H5),
+      (is_derive_unique (fun x : R => p x) t dp H6). ring.
+Qed.
+
+Section Moving.
+Variables lat lon alt : R -> R.
+Variables t dlat dlon dalt : R.
+Hypothesis Hlat : is_derive lat t dlat.
+Hypothesis Hlon : is_derive lon t dlon.
+Hypothesis Halt : is_derive alt t dalt.
+Let lonI (s : R) : R := lon_i (lon s) s.
+Let M00 (s : R) : R := mat_en_from_ll_m00 (lat s) (lonI s).
+Let M01 (s : R) : R := mat_en_from_ll_m01 (lat s) (lonI s).
+Let M02 (s : R) : R := mat_en_from_ll_m02 (lat s) (lonI s).
+Let M10 (s : R) : R := mat_en_from_ll_m10 (lat s) (lonI s).
+Let M11 (s : R) : R := mat_en_from_ll_m11 (lat s) (lonI s).
+Let M12 (s : R) : R := mat_en_from_ll_m12 (lat s) (lonI s).
+Let M20 (s : R) : R := mat_en_from_ll_m20 (lat s) (lonI s).
+Let M21 (s : R) : R := mat_en_from_ll_m21 (lat s) (lonI s).
+Let M22 (s : R) : R := mat_en_from_ll_m22 (lat s) (lonI s).
+Let X (s : R) : R := lla_to_ecef_r0 (lat s) (lonI s) (alt s).
+Let Y (s : R) : R := lla_to_ecef_r1 (lat s) (lonI s) (alt s).
+Let Z (s : R) : R := lla_to_ecef_r2 (lat s) (lonI s) (alt s).
+(* angular rate of the inertially referenced NED frame, resolved in NED, in rad/s *)
+Let wN : R := (dlon * d2r + RATE_) * cos (lat t * d2r).
+Let wE : R := - (dlat * d2r).
+Let wD : R := - ((dlon * d2r + RATE_) * sin (lat t * d2r)).
+
+Lemma ex_lat : ex_derive (fun x => lat x) t. Proof. eexists; exact Hlat. Qed.
+Lemma ex_lon : ex_derive (fun x => lon x) t. Proof. eexists; exact Hlon. Qed.
+Lemma ex_alt : ex_derive (fun x => alt x) t. Proof. eexists; exact Halt. Qed.
+
+(** frame kinematics  C_in' = C_in [w x] *)
+Lemma moving_frame_derive :
+  is_derive M00 t (M01 t * wD - M02 t * wE) /\ is_derive M01 t (M02 t * wN - M00 t * wD) /\
+  is_derive M02 t (M00 t * wE - M01 t * wN) /\
+  is_derive M10 t (M11 t * wD - M12 t * wE) /\ is_derive M11 t (M12 t * wN - M10 t * wD) /\
+  is_derive M12 t (M10 t * wE - M11 t * wN) /\
+  is_derive M20 t (M21 t * wD - M22 t * wE) /\ is_derive M21 t (M22 t * wN - M20 t * wD) /\
+  is_derive M22 t (M20 t * wE - M21 t * wN).
+Proof.
+  pose proof ex_lat as E1. pose proof ex_lon as E2.
+  subst M00 M01 M02 M10 M11 M12 M20 M21 M22 wN wE wD lonI. unfold lon_i. unf_en.
+  split_all; (auto_derive; [split_all; auto|]);
+    rewrite ?(is_derive_unique (fun x : R => lat x) t dlat Hlat), ?(is_derive_unique (fun x : R => lon x) t dlon Hlon);
+    fold_minus; rewrite ?cos_m90, ?sin_m90; unfold d2r;
+    set (phi := lat t * (PI / 180)); set (l := (lon t + RATE_ * (180 / PI) * t) * (PI / 180));
+    assert (Hp : sin phi * sin phi = 1 - cos phi * cos phi) by (pose proof (sc1 phi); lra);
+    field_simplify_eq; try apply PI_neq0; ring [Hp].
+Qed.
+
+(* Earth-relative velocity implied by the position rates *)
+Let uN : R := dlat * d2r * (nav_Rn (lat t) + alt t).
+Let uE : R := dlon * d2r * ((nav_Re (lat t) + alt t) * cos (lat t * d2r)).
+Let uD : R := - dalt.
+
+(** position kinematics: d/dt r_i = C_in u_n + Omega x r_i *)
+Lemma moving_position_derive :
+  is_derive X t (vi_x (lat t) (lonI t) (alt t) uN uE uD) /\
+  is_derive Y t (vi_y (lat t) (lonI t) (alt t) uN uE uD) /\
+  is_derive Z t (vi_z (lat t) (lonI t) (alt t) uN uE uD).
+Proof.
+  pose proof ex_lat as E1. pose proof ex_lon as E2. pose proof ex_alt as E3.
+  pose proof (W_pos' (lat t * (PI/180))) as HW.
+  pose proof (sqrtW_pos (lat t * (PI/180))) as HQ.
+  subst X Y Z uN uE uD lonI. unfold vi_x, vi_y, vi_z, dot3, nav_Rn, nav_Re, R_meridian, R_transverse, W2, lon_i, A_, E2_.
+  unf_en. unf_ecef. 
+  split_all; (auto_derive; [split_all; auto; unfold Rminus in *; lra|]);
+    rewrite ?(is_derive_unique (fun x : R => lat x) t dlat Hlat), ?(is_derive_unique (fun x : R => lon x) t dlon Hlon),
+      ?(is_derive_unique (fun x : R => alt x) t dalt Halt);
+    fold_minus; rewrite ?cos_m90, ?sin_m90; unfold d2r;
+    set (phi := lat t * (PI / 180)) in *; set (l := (lon t + RATE_ * (180 / PI) * t) * (PI / 180));
+    with_q phi;
+    assert (Hc : cos phi * cos phi = 1 - sin phi * sin phi) by (pose proof (sc1 phi); lra);
+    abs_consts; pose proof PI_neq0 as Hpi;
+    match goal with H : ?q * ?q = 1 - _ |- _ =>
+      rewrite <- H; field_simplify_eq; [ring [H Hc] | split_all; auto] end.
+Qed.
+
+Variables VN VE VD : R -> R.
+Variables aN aE aD : R.
+Hypothesis HVN : is_derive VN t aN.
+Hypothesis HVE : is_derive VE t aE.
+Hypothesis HVD : is_derive VD t aD.
+(* the velocity is the one implied by the position rates *)
+Hypothesis HuN : VN t = uN.
+Hypothesis HuE : VE t = uE.
+Hypothesis HuD : VD t = uD.
+Let Vx (s : R) : R := vi_x (lat s) (lonI s) (alt s) (VN s) (VE s) (VD s).
+Let Vy (s : R) : R := vi_y (lat s) (lonI s) (alt s) (VN s) (VE s) (VD s).
+Let Vz (s : R) : R := vi_z (lat s) (lonI s) (alt s) (VN s) (VE s) (VD s).
+
+(** inertial acceleration  a_i = C_in' v_n + C_in v_n' + Omega x v_i *)
+Lemma moving_inertial_acceleration :
+  is_derive Vx t (dot3 (M01 t * wD - M02 t * wE) (M02 t * wN - M00 t * wD) (M00 t * wE - M01 t * wN) (VN t) (VE t) (VD t)
+                  + dot3 (M00 t) (M01 t) (M02 t) aN aE aD - RATE_ * Vy t) /\
+  is_derive Vy t (dot3 (M11 t * wD - M12 t * wE) (M12 t * wN - M10 t * wD) (M10 t * wE - M11 t * wN) (VN t) (VE t) (VD t)
+                  + dot3 (M10 t) (M11 t) (M12 t) aN aE aD + RATE_ * Vx t) /\
+  is_derive Vz t (dot3 (M21 t * wD - M22 t * wE) (M22 t * wN - M20 t * wD) (M20 t * wE - M21 t * wN) (VN t) (VE t) (VD t)
+                  + dot3 (M20 t) (M21 t) (M22 t) aN aE aD).
+Proof.
+  destruct moving_frame_derive as [D00 [D01 [D02 [D10 [D11 [D12 [D20 [D21 D22]]]]]]]].
+  destruct moving_position_derive as [PX [PY PZ]].
+  split_all.
+  - apply (is_derive_ext (fun s => dot3 (M00 s) (M01 s) (M02 s) (VN s) (VE s) (VD s) + (- RATE_) * Y s)).
+    { intro s. subst Vx. cbv beta. unfold vi_x. subst M00 M01 M02 Y. cbv beta. match goal with |- @eq _ ?a ?b => change (@eq R a b) end. ring. }
+    replace (dot3 (M01 t * wD - M02 t * wE) (M02 t * wN - M00 t * wD) (M00 t * wE - M01 t * wN) (VN t) (VE t) (VD t)
+                  + dot3 (M00 t) (M01 t) (M02 t) aN aE aD - RATE_ * Vy t)
+      with (dot3 (M01 t * wD - M02 t * wE) (M02 t * wN - M00 t * wD) (M00 t * wE - M01 t * wN) (VN t) (VE t) (VD t)
+                  + dot3 (M00 t) (M01 t) (M02 t) aN aE aD + (- RATE_) * vi_y (lat t) (lonI t) (alt t) uN uE uD).
+    { apply derive_lin3; assumption. }
+    subst Vy. cbv beta. rewrite HuN, HuE, HuD. ring.
+  - apply (is_derive_ext (fun s => dot3 (M10 s) (M11 s) (M12 s) (VN s) (VE s) (VD s) + RATE_ * X s)).
+    { intro s. subst Vy. cbv beta. unfold vi_y. subst M10 M11 M12 X. cbv beta. match goal with |- @eq _ ?a ?b => change (@eq R a b) end. ring. }
+    replace (Vx t) with (vi_x (lat t) (lonI t) (alt t) uN uE uD).
+    { apply derive_lin3; assumption. }
+    subst Vx. cbv beta. rewrite HuN, HuE, HuD. ring.
+  - apply (is_derive_ext (fun s => dot3 (M20 s) (M21 s) (M22 s) (VN s) (VE s) (VD s) + 0 * Z s)).
+    { intro s. subst Vz. cbv beta. unfold vi_z. subst M20 M21 M22. cbv beta. match goal with |- @eq _ ?a ?b => change (@eq R a b) end. ring. }
+    replace (dot3 (M21 t * wD - M22 t * wE) (M22 t * wN - M20 t * wD) (M20 t * wE - M21 t * wN) (VN t) (VE t) (VD t)
+                  + dot3 (M20 t) (M21 t) (M22 t) aN aE aD)
+      with (dot3 (M21 t * wD - M22 t * wE) (M22 t * wN - M20 t * wD) (M20 t * wE - M21 t * wN) (VN t) (VE t) (VD t)
+                  + dot3 (M20 t) (M21 t) (M22 t) aN aE aD + 0 * vi_z (lat t) (lonI t) (alt t) uN uE uD) by ring.
+    apply derive_lin3; assumption.
+Qed.
+
+(** specific force in NED axes:  C_in^T (a_i - g_i) = v_n' + (2 Omega_n + rho) x v_n - g_n,
+    with rho the transport rate in terms of the position rates *)
+Lemma moving_specific_force_ned :
+  -90 <= lat t <= 90 ->
+  let fx := Derive Vx t - gravitation_ecef_g0 (lat t) (lonI t) (alt t) in
+  let fy := Derive Vy t - gravitation_ecef_g1 (lat t) (lonI t) (alt t) in
+  let fz := Derive Vz t - gravitation_ecef_g2 (lat t) (lonI t) (alt t) in
+  let cN := 2 * nav_Omega_N (lat t) + dlon * d2r * cos (lat t * d2r) in
+  let cE := 2 * nav_Omega_E (lat t) - dlat * d2r in
+  let cD := 2 * nav_Omega_D (lat t) - dlon * d2r * sin (lat t * d2r) in
+  M00 t * fx + M10 t * fy + M20 t * fz = aN + cross0 cN cE cD (VN t) (VE t) (VD t) /\
+  M01 t * fx + M11 t * fy + M21 t * fz = aE + cross1 cN cE cD (VN t) (VE t) (VD t) /\
+  M02 t * fx + M12 t * fy + M22 t * fz = aD + cross2 cN cE cD (VN t) (VE t) (VD t) - gravity_g (lat t) (alt t).
+Proof.
+  intros Hl9. cbv zeta.
+  destruct moving_inertial_acceleration as [AX [AY AZ]].
+  rewrite (is_derive_unique _ _ _ AX), (is_derive_unique _ _ _ AY), (is_derive_unique _ _ _ AZ).
+  destruct (gravitation_is_gravity_minus_centrifugal (lat t) (lonI t) (alt t) Hl9) as [G0 [G1 G2]].
+  rewrite G0, G1, G2. unfold centrifugal_x, centrifugal_y, centrifugal_z.
+  subst Vx Vy Vz. cbv beta. unfold vi_x, vi_y, vi_z.
+  generalize (gravity_g (lat t) (alt t)) (lla_to_ecef_r0 (lat t) (lonI t) (alt t))
+             (lla_to_ecef_r1 (lat t) (lonI t) (alt t)) (lla_to_ecef_r2 (lat t) (lonI t) (alt t)).
+  intros g x y z.
+  generalize (VN t) (VE t) (VD t). intros vN vE vD.
+  subst M00 M01 M02 M10 M11 M12 M20 M21 M22 wN wE wD. cbv beta.
+  unfold dot3, cross0, cross1, cross2, nav_Omega_N, nav_Omega_E, nav_Omega_D, d2r.
+  unf_en. rewrite !cos_m90, !sin_m90.
+  set (phi := lat t * (PI / 180)). set (l := lonI t * (PI / 180)).
+  assert (Hp : sin phi * sin phi = 1 - cos phi * cos phi) by (pose proof (sc1 phi); lra).
+  assert (Hl : sin l * sin l = 1 - cos l * cos l) by (pose proof (sc1 l); lra).
+  split_all; ring [Hp Hl].
+Qed.
+End Moving.
+
+(** accelerometer formula of generate_imu:  accel = C_ib^T (a_i - g_i),  C_ib = C_in C_nb,
+    C_in = mat_en_from_ll(lat, lonI), C_nb = mat_from_rph(roll, pitch, heading) *)
+Definition cib (lat lonI roll pitch heading : R) (k j : nat) : R :=
+  let m := match k with
+           | 0%nat => (mat_en_from_ll_m00 lat lonI, mat_en_from_ll_m01 lat lonI, mat_en_from_ll_m02 lat lonI)
+           | 1%nat => (mat_en_from_ll_m10 lat lonI, mat_en_from_ll_m11 lat lonI, mat_en_from_ll_m12 lat lonI)
+           | _ => (mat_en_from_ll_m20 lat lonI, mat_en_from_ll_m21 lat lonI, mat_en_from_ll_m22 lat lonI) end in
+  let r := match j with
+           | 0%nat => (mat_from_rph_m00 roll pitch heading, mat_from_rph_m10 roll pitch heading, mat_from_rph_m20 roll pitch heading)
+           | 1%nat => (mat_from_rph_m01 roll pitch heading, mat_from_rph_m11 roll pitch heading, mat_from_rph_m21 roll pitch heading)
+           | _ => (mat_from_rph_m02 roll pitch heading, mat_from_rph_m12 roll pitch heading, mat_from_rph_m22 roll pitch heading) end in
+  dot3 (vx m) (vy m) (vz m) (vx r) (vy r) (vz r).
+
+Definition sf_body (lat lonI alt roll pitch heading ax ay az : R) (j : nat) : R :=
+  cib lat lonI roll pitch heading 0 j * (ax - gravitation_ecef_g0 lat lonI alt) +
+  cib lat lonI roll pitch heading 1 j * (ay - gravitation_ecef_g1 lat lonI alt) +
+  cib lat lonI roll pitch heading 2 j * (az - gravitation_ecef_g2 lat lonI alt).
+
+Lemma nav_Rn_lower lat : 6000000 <= nav_Rn lat.
+Proof.
+  unfold nav_Rn, R_meridian, W2, A_, E2_. set (phi := lat * d2r). with_q phi.
+  match goal with H : ?q * ?q = 1 - _ |- _ => rewrite <- H end.
+  assert (q * q <= 1) by (pose proof (sin2_le1 phi); nra).
+  assert (q <= 1) by nra. assert (q * q * q <= 1) by nra.
+  apply Rmult_le_reg_r with (q * q * q); [nra|].
+  replace (6378137 * (1 - 66943799901413 / 10000000000000000) / (q * q * q) * (q * q * q))
+    with (6378137 * (1 - 66943799901413 / 10000000000000000)) by (field; lra).
+  nra.
+Qed.
+
+Lemma nav_Re_lower lat : 6000000 <= nav_Re lat.
+Proof.
+  unfold nav_Re, R_transverse, W2, A_, E2_. set (phi := lat * d2r). with_q phi.
+  assert (q * q <= 1) by (pose proof (sin2_le1 phi); nra).
+  assert (q <= 1) by nra.
+  apply Rmult_le_reg_r with q; [lra|].
+  replace (6378137 / q * q) with 6378137 by (field; lra). nra.
+Qed.
+
+Lemma normal_gravity_is_gravity_g lat alt : normal_gravity (lat * d2r) alt = gravity_g lat alt.
+Proof. unfold normal_gravity, GE_, FG_, E2_, A_, d2r. unf_grav. field. pose proof (sqrtW_pos (lat * (PI/180))). lra. Qed.
+
+(** mat_from_rph is orthogonal:  R (R^T F) = F *)
+Lemma rph_rotates_back roll pitch heading (F0 F1 F2 : R) :
+  let r := fun i j => match i, j with
+    | 0%nat, 0%nat => mat_from_rph_m00 roll pitch heading | 0%nat, 1%nat => mat_from_rph_m01 roll pitch heading
+    | 0%nat, _ => mat_from_rph_m02 roll pitch heading
+    | 1%nat, 0%nat => mat_from_rph_m10 roll pitch heading | 1%nat, 1%nat => mat_from_rph_m11 roll pitch heading
+    | 1%nat, _ => mat_from_rph_m12 roll pitch heading
+    | _, 0%nat => mat_from_rph_m20 roll pitch heading | _, 1%nat => mat_from_rph_m21 roll pitch heading
+    | _, _ => mat_from_rph_m22 roll pitch heading end in
+  let b j := r 0%nat j * F0 + r 1%nat j * F1 + r 2%nat j * F2 in
+  r 0%nat 0%nat * b 0%nat + r 0%nat 1%nat * b 1%nat + r 0%nat 2%nat * b 2%nat = F0 /\
+  r 1%nat 0%nat * b 0%nat + r 1%nat 1%nat * b 1%nat + r 1%nat 2%nat * b 2%nat = F1 /\
+  r 2%nat 0%nat * b 0%nat + r 2%nat 1%nat * b 1%nat + r 2%nat 2%nat * b 2%nat = F2.
+Proof.
+  cbv zeta beta iota. unf_rph.
+  set (ro := roll * (PI / 180)). set (pi := pitch * (PI / 180)). set (he := heading * (PI / 180)).
+  assert (Hr : sin ro * sin ro = 1 - cos ro * cos ro) by (pose proof (sc1 ro); lra).
+  assert (Hq : sin pi * sin pi = 1 - cos pi * cos pi) by (pose proof (sc1 pi); lra).
+  assert (Hh : sin he * sin he = 1 - cos he * cos he) by (pose proof (sc1 he); lra).
+  split_all; ring [Hr Hq Hh].
+Qed.
+
+(** The accelerometer output of generate_imu (true derivative in place of the spline derivative) is the
+    specific force for which the velocity equation of the navigation ODE returns the trajectory's own
+    acceleration. *)
+Lemma specific_force_inverts_rhs
+  (lat lon alt VN VE VD : R -> R) (t aN aE aD roll pitch heading w0 w1 w2 : R) :
+  let lonI := fun s => lon_i (lon s) s in
+  let Vx := fun s => vi_x (lat s) (lonI s) (alt s) (VN s) (VE s) (VD s) in
+  let Vy := fun s => vi_y (lat s) (lonI s) (alt s) (VN s) (VE s) (VD s) in
+  let Vz := fun s => vi_z (lat s) (lonI s) (alt s) (VN s) (VE s) (VD s) in
+  let f := sf_body (lat t) (lonI t) (alt t) roll pitch heading (Derive Vx t) (Derive Vy t) (Derive Vz t) in
+  let rhs := fun F : R -> R -> R -> R -> R -> R -> R -> R -> R -> R -> R -> R -> R -> R -> R -> R -> R -> R -> R -> R -> R -> R =>
+    F (lat t) (lon t) (alt t) (VN t) (VE t) (VD t)
+      (mat_from_rph_m00 roll pitch heading) (mat_from_rph_m01 roll pitch heading) (mat_from_rph_m02 roll pitch heading)
+      (mat_from_rph_m10 roll pitch heading) (mat_from_rph_m11 roll pitch heading) (mat_from_rph_m12 roll pitch heading)
+      (mat_from_rph_m20 roll pitch heading) (mat_from_rph_m21 roll pitch heading) (mat_from_rph_m22 roll pitch heading)
+      w0 w1 w2 (f 0%nat) (f 1%nat) (f 2%nat) in
+  -90 < lat t < 90 -> -6000000 < alt t ->
+  is_derive lat t (rhs nav_rhs_lat) -> is_derive lon t (rhs nav_rhs_lon) -> is_derive alt t (rhs nav_rhs_alt) ->
+  is_derive VN t aN -> is_derive VE t aE -> is_derive VD t aD ->
+  (ex_derive Vx t /\ ex_derive Vy t /\ ex_derive Vz t) /\
+  rhs nav_rhs_VN = aN /\ rhs nav_rhs_VE = aE /\ rhs nav_rhs_VD = aD.
+Proof.
+  intros lonI Vx Vy Vz f rhs. subst lonI Vx Vy Vz f rhs. cbv beta.
+  set (lonI := lon_i (lon t) t).
+  set (Vx := fun s : R => vi_x (lat s) (lon_i (lon s) s) (alt s) (VN s) (VE s) (VD s)).
+  set (Vy := fun s : R => vi_y (lat s) (lon_i (lon s) s) (alt s) (VN s) (VE s) (VD s)).
+  set (Vz := fun s : R => vi_z (lat s) (lon_i (lon s) s) (alt s) (VN s) (VE s) (VD s)).
+  intros Hl9 Ha Hlat Hlon Halt HVN HVE HVD.
+  assert (Hl9' : -90 <= lat t <= 90) by lra.
+  pose proof (cos_d2r_pos (lat t) Hl9) as Hcos. fold d2r in Hcos.
+  pose proof (nav_Rn_lower (lat t)) as HRn. pose proof (nav_Re_lower (lat t)) as HRe.
+  pose proof PI_RGT_0 as Hpi.
+  unfold nav_rhs_lat in Hlat. unfold nav_rhs_lon in Hlon. unfold nav_rhs_alt in Halt.
+  set (dlat := r2d * (VN t / (nav_Rn (lat t) + alt t))) in *.
+  set (dlon := r2d * (VE t / ((nav_Re (lat t) + alt t) * cos (lat t * d2r)))) in *.
+  assert (HuN : VN t = dlat * d2r * (nav_Rn (lat t) + alt t)).
+  { subst dlat. unfold r2d, d2r. field. split; lra. }
+  assert (HuE : VE t = dlon * d2r * ((nav_Re (lat t) + alt t) * cos (lat t * d2r))).
+  { subst dlon. unfold r2d, d2r. field. unfold d2r in Hcos. split_all; lra. }
+  assert (HuD : VD t = - - VD t) by ring.
+  destruct (moving_inertial_acceleration lat lon alt t dlat dlon (- VD t) Hlat Hlon Halt VN VE VD aN aE aD
+              HVN HVE HVD HuN HuE HuD) as [AX [AY AZ]].
+  destruct (moving_specific_force_ned lat lon alt t dlat dlon (- VD t) Hlat Hlon Halt VN VE VD aN aE aD
+              HVN HVE HVD HuN HuE HuD Hl9') as [F0 [F1 F2]].
+  cbv zeta in F0, F1, F2. fold lonI in F0, F1, F2. fold Vx Vy Vz in F0, F1, F2, AX, AY, AZ.
+  split; [split_all; eexists; eassumption|].
+  (* transport rate in terms of the position rates *)
+  assert (RN : nav_rho_N (lat t) (alt t) (VN t) (VE t) = dlon * d2r * cos (lat t * d2r)).
+  { unfold nav_rho_N. rewrite HuE at 1. field. lra. }
+  assert (RE : nav_rho_E (lat t) (alt t) (VN t) (VE t) = - (dlat * d2r)).
+  { unfold nav_rho_E. rewrite HuN at 1. field. lra. }
+  assert (RD : nav_rho_D (lat t) (alt t) (VN t) (VE t) = - (dlon * d2r * sin (lat t * d2r))).
+  { unfold nav_rho_D, tan. rewrite HuE at 1. field. split; lra. }
+  destruct (rph_rotates_back roll pitch heading
+     (mat_en_from_ll_m00 (lat t) lonI * (Derive Vx t - gravitation_ecef_g0 (lat t) lonI (alt t)) +
+      mat_en_from_ll_m10 (lat t) lonI * (Derive Vy t - gravitation_ecef_g1 (lat t) lonI (alt t)) +
+      mat_en_from_ll_m20 (lat t) lonI * (Derive Vz t - gravitation_ecef_g2 (lat t) lonI (alt t)))
+     (mat_en_from_ll_m01 (lat t) lonI * (Derive Vx t - gravitation_ecef_g0 (lat t) lonI (alt t)) +
+      mat_en_from_ll_m11 (lat t) lonI * (Derive Vy t - gravitation_ecef_g1 (lat t) lonI (alt t)) +
+      mat_en_from_ll_m21 (lat t) lonI * (Derive Vz t - gravitation_ecef_g2 (lat t) lonI (alt t)))
+     (mat_en_from_ll_m02 (lat t) lonI * (Derive Vx t - gravitation_ecef_g0 (lat t) lonI (alt t)) +
+      mat_en_from_ll_m12 (lat t) lonI * (Derive Vy t - gravitation_ecef_g1 (lat t) lonI (alt t)) +
+      mat_en_from_ll_m22 (lat t) lonI * (Derive Vz t - gravitation_ecef_g2 (lat t) lonI (alt t))))
+    as [B0 [B1 B2]].
+  cbv zeta beta iota in B0, B1, B2.
+  unfold nav_rhs_VN, nav_rhs_VE, nav_rhs_VD, nav_cor_N, nav_cor_E, nav_cor_D.
+  rewrite RN, RE, RD, normal_gravity_is_gravity_g.
+  unfold sf_body, cib, dot3 at 1 2 3. cbv [vx vy vz fst snd].
+  set (Fn0 := mat_en_from_ll_m00 (lat t) lonI * (Derive Vx t - gravitation_ecef_g0 (lat t) lonI (alt t)) +
+      mat_en_from_ll_m10 (lat t) lonI * (Derive Vy t - gravitation_ecef_g1 (lat t) lonI (alt t)) +
+      mat_en_from_ll_m20 (lat t) lonI * (Derive Vz t - gravitation_ecef_g2 (lat t) lonI (alt t))) in *.
+  set (Fn1 := mat_en_from_ll_m01 (lat t) lonI * (Derive Vx t - gravitation_ecef_g0 (lat t) lonI (alt t)) +
+      mat_en_from_ll_m11 (lat t) lonI * (Derive Vy t - gravitation_ecef_g1 (lat t) lonI (alt t)) +
+      mat_en_from_ll_m21 (lat t) lonI * (Derive Vz t - gravitation_ecef_g2 (lat t) lonI (alt t))) in *.
+  set (Fn2 := mat_en_from_ll_m02 (lat t) lonI * (Derive Vx t - gravitation_ecef_g0 (lat t) lonI (alt t)) +
+      mat_en_from_ll_m12 (lat t) lonI * (Derive Vy t - gravitation_ecef_g1 (lat t) lonI (alt t)) +
+      mat_en_from_ll_m22 (lat t) lonI * (Derive Vz t - gravitation_ecef_g2 (lat t) lonI (alt t))) in *.
+  unfold cross0, cross1, cross2 in *.
+  split_all.
+  - rewrite <- B0 in F0.
+    match type of F0 with _ = aN + ?c => apply (Rplus_eq_reg_r c); rewrite <- F0 end.
+    subst Fn0 Fn1 Fn2. unfold dot3. ring.
+  - rewrite <- B1 in F1.
+    match type of F1 with _ = aE + ?c => apply (Rplus_eq_reg_r c); rewrite <- F1 end.
+    subst Fn0 Fn1 Fn2. unfold dot3. ring.
+  - rewrite <- B2 in F2.
+    match type of F2 with _ = aD + ?c - ?g => apply (Rplus_eq_reg_r (c - g)) end.
+    replace (aD + ((2 * nav_Omega_N (lat t) + dlon * d2r * cos (lat t * d2r)) * VE t -
+                   (2 * nav_Omega_E (lat t) - dlat * d2r) * VN t - gravity_g (lat t) (alt t)))
+      with (aD + ((2 * nav_Omega_N (lat t) + dlon * d2r * cos (lat t * d2r)) * VE t -
+                   (2 * nav_Omega_E (lat t) - dlat * d2r) * VN t) - gravity_g (lat t) (alt t)) by ring.
+    rewrite <- F2. subst Fn0 Fn1 Fn2. unfold dot3. ring.
+Qed.
+
+(** * 4. generate_imu on two samples (position + velocity form): the traced straight-line kinematics *)
+
+(** second derivative at both ends of THE cubic with p(0) = r0, p(h) = r1, p'(0) = v0, p'(h) = v1
+    (contract of scipy CubicHermiteSpline on one interval) *)
+Definition hermite_poly (r0 r1 v0 v1 h tau : R) : R :=
+  r0 + v0 * tau + (3 * (r1 - r0) / h - 2 * v0 - v1) / h * (tau * tau)
+  + (v0 + v1 - 2 * (r1 - r0) / h) / (h * h) * (tau * tau * tau).
+Definition hermite_acc0 (r0 r1 v0 v1 h : R) : R := (6 * (r1 - r0) / h - 4 * v0 - 2 * v1) / h.
+Definition hermite_acc1 (r0 r1 v0 v1 h : R) : R := (- 6 * (r1 - r0) / h + 2 * v0 + 4 * v1) / h.
+
+(** slope of the linear interpolation of C_ib(0)^T (a_i - g_i) between the two samples *)
+Definition sf_slope (lat0 l0 alt0 roll0 pitch0 heading0 lat1 l1 alt1 ax0 ay0 az0 ax1 ay1 az1 h : R) (j : nat) : R :=
+  cib lat0 l0 roll0 pitch0 heading0 0 j *
+    (((ax1 - gravitation_ecef_g0 lat1 l1 alt1) - (ax0 - gravitation_ecef_g0 lat0 l0 alt0)) / h) +
+  cib lat0 l0 roll0 pitch0 heading0 1 j *
+    (((ay1 - gravitation_ecef_g1 lat1 l1 alt1) - (ay0 - gravitation_ecef_g1 lat0 l0 alt0)) / h) +
+  cib lat0 l0 roll0 pitch0 heading0 2 j *
+    (((az1 - gravitation_ecef_g2 lat1 l1 alt1) - (az0 - gravitation_ecef_g2 lat0 l0 alt0)) / h).
+
+Ltac unf_imu_rate := unfold imu_rate_f0_0, imu_rate_f0_1, imu_rate_f0_2, imu_rate_f1_0, imu_rate_f1_1, imu_rate_f1_2;
+  repeat autounfold with imu_rate_db.
+
+Section TwoSamples.
+Variables t0 t1 lat0 lon0 alt0 lat1 lon1 alt1 roll0 pitch0 heading0 roll1 pitch1 heading1 VN0 VE0 VD0 VN1 VE1 VD1 : R.
+Let h := t1 - t0.
+Let l0 := lon_i lon0 t0.
+Let l1 := lon_i lon1 t1.
+Let ax0 := hermite_acc0 (lla_to_ecef_r0 lat0 l0 alt0) (lla_to_ecef_r0 lat1 l1 alt1)
+                        (vi_x lat0 l0 alt0 VN0 VE0 VD0) (vi_x lat1 l1 alt1 VN1 VE1 VD1) h.
+Let ay0 := hermite_acc0 (lla_to_ecef_r1 lat0 l0 alt0) (lla_to_ecef_r1 lat1 l1 alt1)
+                        (vi_y lat0 l0 alt0 VN0 VE0 VD0) (vi_y lat1 l1 alt1 VN1 VE1 VD1) h.
+Let az0 := hermite_acc0 (lla_to_ecef_r2 lat0 l0 alt0) (lla_to_ecef_r2 lat1 l1 alt1)
+                        (vi_z lat0 l0 alt0 VN0 VE0 VD0) (vi_z lat1 l1 alt1 VN1 VE1 VD1) h.
+
+Let ax1 := hermite_acc1 (lla_to_ecef_r0 lat0 l0 alt0) (lla_to_ecef_r0 lat1 l1 alt1)
+                        (vi_x lat0 l0 alt0 VN0 VE0 VD0) (vi_x lat1 l1 alt1 VN1 VE1 VD1) h.
+Let ay1 := hermite_acc1 (lla_to_ecef_r1 lat0 l0 alt0) (lla_to_ecef_r1 lat1 l1 alt1)
+                        (vi_y lat0 l0 alt0 VN0 VE0 VD0) (vi_y lat1 l1 alt1 VN1 VE1 VD1) h.
+Let az1 := hermite_acc1 (lla_to_ecef_r2 lat0 l0 alt0) (lla_to_ecef_r2 lat1 l1 alt1)
+                        (vi_z lat0 l0 alt0 VN0 VE0 VD0) (vi_z lat1 l1 alt1 VN1 VE1 VD1) h.
+
+Ltac imu_field :=
+  subst ax0 ay0 az0 ax1 ay1 az1 l0 l1 h;
+  pose proof (sqrtW_pos (lat0 * (PI/180))) as HQ0; pose proof (sqrtW_pos (lat1 * (PI/180))) as HQ1;
+  unfold sf_body, sf_slope, cib, hermite_acc0, hermite_acc1, vi_x, vi_y, vi_z, dot3, lon_i, RATE_; cbv [vx vy vz fst snd];
+  unf_gravitation; unf_en; unf_ecef; unf_rph;
+  field; split_all; lra.
+
+(** rate type: both rows are  C_ib^T (Hermite acceleration - gravitation)  at their own sample *)
+Lemma imu_rate_formula : h <> 0 ->
+  (imu_rate_f0_0 t0 t1 lat0 lon0 alt0 lat1 lon1 alt1 roll0 pitch0 heading0 roll1 pitch1 heading1 VN0 VE0 VD0 VN1 VE1 VD1
+   = sf_body lat0 l0 alt0 roll0 pitch0 heading0 ax0 ay0 az0 0 /\
+   imu_rate_f0_1 t0 t1 lat0 lon0 alt0 lat1 lon1 alt1 roll0 pitch0 heading0 roll1 pitch1 heading1 VN0 VE0 VD0 VN1 VE1 VD1
+   = sf_body lat0 l0 alt0 roll0 pitch0 heading0 ax0 ay0 az0 1 /\
+   imu_rate_f0_2 t0 t1 lat0 lon0 alt0 lat1 lon1 alt1 roll0 pitch0 heading0 roll1 pitch1 heading1 VN0 VE0 VD0 VN1 VE1 VD1
+   = sf_body lat0 l0 alt0 roll0 pitch0 heading0 ax0 ay0 az0 2) /\
+  (imu_rate_f1_0 t0 t1 lat0 lon0 alt0 lat1 lon1 alt1 roll0 pitch0 heading0 roll1 pitch1 heading1 VN0 VE0 VD0 VN1 VE1 VD1
+   = sf_body lat1 l1 alt1 roll1 pitch1 heading1 ax1 ay1 az1 0 /\
+   imu_rate_f1_1 t0 t1 lat0 lon0 alt0 lat1 lon1 alt1 roll0 pitch0 heading0 roll1 pitch1 heading1 VN0 VE0 VD0 VN1 VE1 VD1
+   = sf_body lat1 l1 alt1 roll1 pitch1 heading1 ax1 ay1 az1 1 /\
+   imu_rate_f1_2 t0 t1 lat0 lon0 alt0 lat1 lon1 alt1 roll0 pitch0 heading0 roll1 pitch1 heading1 VN0 VE0 VD0 VN1 VE1 VD1
+   = sf_body lat1 l1 alt1 roll1 pitch1 heading1 ax1 ay1 az1 2).
+Proof.
+  intro Hh. unf_imu_rate. split_all; imu_field.
+Qed.
+
+(** the returned trajectory row is the given one *)
+Lemma imu_rate_trajectory_passthrough :
+  imu_rate_traj0_lat t0 t1 lat0 lon0 alt0 lat1 lon1 alt1 roll0 pitch0 heading0 roll1 pitch1 heading1 VN0 VE0 VD0 VN1 VE1 VD1 = lat0 /\
+  imu_rate_traj0_lon t0 t1 lat0 lon0 alt0 lat1 lon1 alt1 roll0 pitch0 heading0 roll1 pitch1 heading1 VN0 VE0 VD0 VN1 VE1 VD1 = lon0 /\
+  imu_rate_traj0_alt t0 t1 lat0 lon0 alt0 lat1 lon1 alt1 roll0 pitch0 heading0 roll1 pitch1 heading1 VN0 VE0 VD0 VN1 VE1 VD1 = alt0 /\
+  imu_rate_traj0_VN t0 t1 lat0 lon0 alt0 lat1 lon1 alt1 roll0 pitch0 heading0 roll1 pitch1 heading1 VN0 VE0 VD0 VN1 VE1 VD1 = VN0 /\
+  imu_rate_traj0_VE t0 t1 lat0 lon0 alt0 lat1 lon1 alt1 roll0 pitch0 heading0 roll1 pitch1 heading1 VN0 VE0 VD0 VN1 VE1 VD1 = VE0 /\
+  imu_rate_traj0_VD t0 t1 lat0 lon0 alt0 lat1 lon1 alt1 roll0 pitch0 heading0 roll1 pitch1 heading1 VN0 VE0 VD0 VN1 VE1 VD1 = VD0 /\
+  imu_rate_traj0_roll t0 t1 lat0 lon0 alt0 lat1 lon1 alt1 roll0 pitch0 heading0 roll1 pitch1 heading1 VN0 VE0 VD0 VN1 VE1 VD1 = roll0 /\
+  imu_rate_traj0_pitch t0 t1 lat0 lon0 alt0 lat1 lon1 alt1 roll0 pitch0 heading0 roll1 pitch1 heading1 VN0 VE0 VD0 VN1 VE1 VD1 = pitch0 /\
+  imu_rate_traj0_heading t0 t1 lat0 lon0 alt0 lat1 lon1 alt1 roll0 pitch0 heading0 roll1 pitch1 heading1 VN0 VE0 VD0 VN1 VE1 VD1 = heading0.
+Proof. split_all; reflexivity. Qed.
+
+(** increment type: the interval [t0, t1] is handed to _compute_increment_readings with
+    dt = t1 - t0, the given rotation-vector coefficients, and the specific force  d + e tau  that interpolates
+    C_ib(t0)^T (a_i - g_i) linearly between the two samples (a_i: Hermite, g_i: gravitation at the samples). *)
+Variables ra0 ra1 ra2 rb0 rb1 rb2 rc0 rc1 rc2 : R.
+Let dd (j : nat) := sf_body lat0 l0 alt0 roll0 pitch0 heading0 ax0 ay0 az0 j.
+Let ee (j : nat) := sf_slope lat0 l0 alt0 roll0 pitch0 heading0 lat1 l1 alt1 ax0 ay0 az0 ax1 ay1 az1 h j.
+
+Lemma imu_incr_formula : h <> 0 ->
+  imu_incr_gyro0 t0 t1 lat0 lon0 alt0 lat1 lon1 alt1 roll0 pitch0 heading0 roll1 pitch1 heading1 VN0 VE0 VD0 VN1 VE1 VD1 ra0 ra1 ra2 rb0 rb1 rb2 rc0 rc1 rc2 = incr_readings_gyros0 h ra0 ra1 ra2 rb0 rb1 rb2 rc0 rc1 rc2 (dd 0%nat) (dd 1%nat) (dd 2%nat) (ee 0%nat) (ee 1%nat) (ee 2%nat) /\
+  imu_incr_gyro1 t0 t1 lat0 lon0 alt0 lat1 lon1 alt1 roll0 pitch0 heading0 roll1 pitch1 heading1 VN0 VE0 VD0 VN1 VE1 VD1 ra0 ra1 ra2 rb0 rb1 rb2 rc0 rc1 rc2 = incr_readings_gyros1 h ra0 ra1 ra2 rb0 rb1 rb2 rc0 rc1 rc2 (dd 0%nat) (dd 1%nat) (dd 2%nat) (ee 0%nat) (ee 1%nat) (ee 2%nat) /\
+  imu_incr_gyro2 t0 t1 lat0 lon0 alt0 lat1 lon1 alt1 roll0 pitch0 heading0 roll1 pitch1 heading1 VN0 VE0 VD0 VN1 VE1 VD1 ra0 ra1 ra2 rb0 rb1 rb2 rc0 rc1 rc2 = incr_readings_gyros2 h ra0 ra1 ra2 rb0 rb1 rb2 rc0 rc1 rc2 (dd 0%nat) (dd 1%nat) (dd 2%nat) (ee 0%nat) (ee 1%nat) (ee 2%nat) /\
+  imu_incr_accel0 t0 t1 lat0 lon0 alt0 lat1 lon1 alt1 roll0 pitch0 heading0 roll1 pitch1 heading1 VN0 VE0 VD0 VN1 VE1 VD1 ra0 ra1 ra2 rb0 rb1 rb2 rc0 rc1 rc2 = incr_readings_accels0 h ra0 ra1 ra2 rb0 rb1 rb2 rc0 rc1 rc2 (dd 0%nat) (dd 1%nat) (dd 2%nat) (ee 0%nat) (ee 1%nat) (ee 2%nat) /\
+  imu_incr_accel1 t0 t1 lat0 lon0 alt0 lat1 lon1 alt1 roll0 pitch0 heading0 roll1 pitch1 heading1 VN0 VE0 VD0 VN1 VE1 VD1 ra0 ra1 ra2 rb0 rb1 rb2 rc0 rc1 rc2 = incr_readings_accels1 h ra0 ra1 ra2 rb0 rb1 rb2 rc0 rc1 rc2 (dd 0%nat) (dd 1%nat) (dd 2%nat) (ee 0%nat) (ee 1%nat) (ee 2%nat) /\
+  imu_incr_accel2 t0 t1 lat0 lon0 alt0 lat1 lon1 alt1 roll0 pitch0 heading0 roll1 pitch1 heading1 VN0 VE0 VD0 VN1 VE1 VD1 ra0 ra1 ra2 rb0 rb1 rb2 rc0 rc1 rc2 = incr_readings_accels2 h ra0 ra1 ra2 rb0 rb1 rb2 rc0 rc1 rc2 (dd 0%nat) (dd 1%nat) (dd 2%nat) (ee 0%nat) (ee 1%nat) (ee 2%nat).
+Proof.
+  intro Hh.
+  unfold imu_incr_gyro0, imu_incr_gyro1, imu_incr_gyro2, imu_incr_accel0, imu_incr_accel1, imu_incr_accel2.
+  match goal with |- incr_readings_gyros0 ?T _ _ _ _ _ _ _ _ _ ?D0 ?D1 ?D2 ?E0 ?E1 ?E2 = _ /\ _ =>
+    assert (HT : T = h) by reflexivity;
+    assert (HD0 : D0 = dd 0%nat) by (subst dd; cbv beta; repeat autounfold with imu_incr_db; abstract imu_field);
+    assert (HD1 : D1 = dd 1%nat) by (subst dd; cbv beta; repeat autounfold with imu_incr_db; abstract imu_field);
+    assert (HD2 : D2 = dd 2%nat) by (subst dd; cbv beta; repeat autounfold with imu_incr_db; abstract imu_field);
+    assert (HE0 : E0 = ee 0%nat) by (subst ee; cbv beta; repeat autounfold with imu_incr_db; abstract imu_field);
+    assert (HE1 : E1 = ee 1%nat) by (subst ee; cbv beta; repeat autounfold with imu_incr_db; abstract imu_field);
+    assert (HE2 : E2 = ee 2%nat) by (subst ee; cbv beta; repeat autounfold with imu_incr_db; abstract imu_field);
+    rewrite HT, HD0, HD1, HD2, HE0, HE1, HE2
+  end.
+  split_all; reflexivity.
+Qed.
+
+(** hence the increment readings of generate_imu are the exact integrals over the sampling interval of the
+    body-rate / body-force polynomials of that interval *)
+Lemma imu_incr_is_integral : h <> 0 ->
+  let a := (ra0, ra1, ra2) in let b := (rb0, rb1, rb2) in let c := (rc0, rc1, rc2) in
+  let d := (dd 0%nat, dd 1%nat, dd 2%nat) in let e := (ee 0%nat, ee 1%nat, ee 2%nat) in
+  is_RInt (fun s => vx (body_rate3 a b c s)) 0 h (imu_incr_gyro0 t0 t1 lat0 lon0 alt0 lat1 lon1 alt1 roll0 pitch0 heading0 roll1 pitch1 heading1 VN0 VE0 VD0 VN1 VE1 VD1 ra0 ra1 ra2 rb0 rb1 rb2 rc0 rc1 rc2) /\
+  is_RInt (fun s => vy (body_rate3 a b c s)) 0 h (imu_incr_gyro1 t0 t1 lat0 lon0 alt0 lat1 lon1 alt1 roll0 pitch0 heading0 roll1 pitch1 heading1 VN0 VE0 VD0 VN1 VE1 VD1 ra0 ra1 ra2 rb0 rb1 rb2 rc0 rc1 rc2) /\
+  is_RInt (fun s => vz (body_rate3 a b c s)) 0 h (imu_incr_gyro2 t0 t1 lat0 lon0 alt0 lat1 lon1 alt1 roll0 pitch0 heading0 roll1 pitch1 heading1 VN0 VE0 VD0 VN1 VE1 VD1 ra0 ra1 ra2 rb0 rb1 rb2 rc0 rc1 rc2) /\
+  is_RInt (fun s => vx (body_force2 a b c d e s)) 0 h (imu_incr_accel0 t0 t1 lat0 lon0 alt0 lat1 lon1 alt1 roll0 pitch0 heading0 roll1 pitch1 heading1 VN0 VE0 VD0 VN1 VE1 VD1 ra0 ra1 ra2 rb0 rb1 rb2 rc0 rc1 rc2) /\
+  is_RInt (fun s => vy (body_force2 a b c d e s)) 0 h (imu_incr_accel1 t0 t1 lat0 lon0 alt0 lat1 lon1 alt1 roll0 pitch0 heading0 roll1 pitch1 heading1 VN0 VE0 VD0 VN1 VE1 VD1 ra0 ra1 ra2 rb0 rb1 rb2 rc0 rc1 rc2) /\
+  is_RInt (fun s => vz (body_force2 a b c d e s)) 0 h (imu_incr_accel2 t0 t1 lat0 lon0 alt0 lat1 lon1 alt1 roll0 pitch0 heading0 roll1 pitch1 heading1 VN0 VE0 VD0 VN1 VE1 VD1 ra0 ra1 ra2 rb0 rb1 rb2 rc0 rc1 rc2).
+Proof.
+  intro Hh. cbv zeta.
+  destruct (imu_incr_formula Hh) as [G0 [G1 [G2 [A0 [A1 A2]]]]].
+  rewrite G0, G1, G2, A0, A1, A2.
+  destruct (gyro_poly_exact ra0 ra1 ra2 rb0 rb1 rb2 rc0 rc1 rc2 (dd 0%nat) (dd 1%nat) (dd 2%nat)
+              (ee 0%nat) (ee 1%nat) (ee 2%nat) h) as [_ [I0 [I1 I2]]].
+  destruct (accel_poly_exact ra0 ra1 ra2 rb0 rb1 rb2 rc0 rc1 rc2 (dd 0%nat) (dd 1%nat) (dd 2%nat)
+              (ee 0%nat) (ee 1%nat) (ee 2%nat) h) as [_ [J0 [J1 J2]]].
+  split_all; assumption.
+Qed.
+End TwoSamples.
+
+Lemma hermite_contract r0 r1 v0 v1 h : h <> 0 ->
+  hermite_poly r0 r1 v0 v1 h 0 = r0 /\ hermite_poly r0 r1 v0 v1 h h = r1 /\
+  is_derive (hermite_poly r0 r1 v0 v1 h) 0 v0 /\ is_derive (hermite_poly r0 r1 v0 v1 h) h v1 /\
+  is_derive_n (hermite_poly r0 r1 v0 v1 h) 2 0 (hermite_acc0 r0 r1 v0 v1 h) /\
+  is_derive_n (hermite_poly r0 r1 v0 v1 h) 2 h (hermite_acc1 r0 r1 v0 v1 h).
+Proof.
+  intro Hh.
+  assert (D1 : forall x, is_derive (hermite_poly r0 r1 v0 v1 h) x
+            (v0 + 2 * ((3 * (r1 - r0) / h - 2 * v0 - v1) / h) * x
+             + 3 * ((v0 + v1 - 2 * (r1 - r0) / h) / (h * h)) * (x * x))).
+  { intro x. unfold hermite_poly. auto_derive; [exact I|]. field. exact Hh. }
+  assert (D2 : forall x, is_derive_n (hermite_poly r0 r1 v0 v1 h) 2 x
+            (2 * ((3 * (r1 - r0) / h - 2 * v0 - v1) / h) + 6 * ((v0 + v1 - 2 * (r1 - r0) / h) / (h * h)) * x)).
+  { intro x. change (is_derive (Derive (hermite_poly r0 r1 v0 v1 h)) x
+            (2 * ((3 * (r1 - r0) / h - 2 * v0 - v1) / h) + 6 * ((v0 + v1 - 2 * (r1 - r0) / h) / (h * h)) * x)).
+    apply (is_derive_ext (fun x => v0 + 2 * ((3 * (r1 - r0) / h - 2 * v0 - v1) / h) * x
+             + 3 * ((v0 + v1 - 2 * (r1 - r0) / h) / (h * h)) * (x * x))).
+    - intro y. symmetry. apply is_derive_unique. apply D1.
+    - auto_derive; [exact I|]. field. exact Hh. }
+  split_all.
+  - unfold hermite_poly. field. exact Hh.
+  - unfold hermite_poly. field. exact Hh.
+  - replace v0 with (v0 + 2 * ((3 * (r1 - r0) / h - 2 * v0 - v1) / h) * 0
+             + 3 * ((v0 + v1 - 2 * (r1 - r0) / h) / (h * h)) * (0 * 0)) at 2 by ring. apply D1.
+  - replace v1 with (v0 + 2 * ((3 * (r1 - r0) / h - 2 * v0 - v1) / h) * h
+             + 3 * ((v0 + v1 - 2 * (r1 - r0) / h) / (h * h)) * (h * h)) at 2 by (field; exact Hh). apply D1.
+  - replace (hermite_acc0 r0 r1 v0 v1 h) with
+      (2 * ((3 * (r1 - r0) / h - 2 * v0 - v1) / h) + 6 * ((v0 + v1 - 2 * (r1 - r0) / h) / (h * h)) * 0)
+      by (unfold hermite_acc0; field; exact Hh). apply D2.
+  - replace (hermite_acc1 r0 r1 v0 v1 h) with
+      (2 * ((3 * (r1 - r0) / h - 2 * v0 - v1) / h) + 6 * ((v0 + v1 - 2 * (r1 - r0) / h) / (h * h)) * h)
+      by (unfold hermite_acc1; field; exact Hh). apply D2.
+Qed.
+
+(** * 5. The gyro side *)
+
+(** one column of the attitude equation solved for C_nb' : from
+      (C_in C_nb)' = C_in' c + C_in d = C_in r      (r = the column of C_nb [w x])
+    with C_in' = C_in [om x] follows  d = r - om x c. *)
+Lemma attitude_column_solve (lat lonI wN wE wD c0 c1 c2 d0 d1 d2 r0 r1 r2 : R) :
+  let m := fun k j : nat => match k, j with
+    | 0%nat, 0%nat => mat_en_from_ll_m00 lat lonI | 0%nat, 1%nat => mat_en_from_ll_m01 lat lonI
+    | 0%nat, _ => mat_en_from_ll_m02 lat lonI
+    | 1%nat, 0%nat => mat_en_from_ll_m10 lat lonI | 1%nat, 1%nat => mat_en_from_ll_m11 lat lonI
+    | 1%nat, _ => mat_en_from_ll_m12 lat lonI
+    | _, 0%nat => mat_en_from_ll_m20 lat lonI | _, 1%nat => mat_en_from_ll_m21 lat lonI
+    | _, _ => mat_en_from_ll_m22 lat lonI end in
+  (forall k : nat, (k < 3)%nat ->
+     dot3 (m k 1%nat * wD - m k 2%nat * wE) (m k 2%nat * wN - m k 0%nat * wD) (m k 0%nat * wE - m k 1%nat * wN) c0 c1 c2
+     + dot3 (m k 0%nat) (m k 1%nat) (m k 2%nat) d0 d1 d2
+     = dot3 (m k 0%nat) (m k 1%nat) (m k 2%nat) r0 r1 r2) ->
+  d0 = r0 - cross0 wN wE wD c0 c1 c2 /\ d1 = r1 - cross1 wN wE wD c0 c1 c2 /\ d2 = r2 - cross2 wN wE wD c0 c1 c2.
+Proof.
+  intros m H.
+  pose proof (H 0%nat ltac:(auto)) as H0. pose proof (H 1%nat ltac:(auto)) as H1. pose proof (H 2%nat ltac:(auto)) as H2.
+  subst m. cbv beta iota in H0, H1, H2. clear H.
+  apply Rminus_diag_eq in H0. apply Rminus_diag_eq in H1. apply Rminus_diag_eq in H2.
+  revert H0 H1 H2. unfold dot3, cross0, cross1, cross2. unf_en. rewrite !cos_m90, !sin_m90.
+  set (phi := lat * (PI / 180)). set (l := lonI * (PI / 180)).
+  assert (Hp : sin phi * sin phi = 1 - cos phi * cos phi) by (pose proof (sc1 phi); lra).
+  assert (Hl : sin l * sin l = 1 - cos l * cos l) by (pose proof (sc1 l); lra).
+  intros H0 H1 H2.
+  split_all; apply Rminus_diag_uniq.
+  - match type of H0 with ?e0 = 0 => match type of H1 with ?e1 = 0 => match type of H2 with ?e2 = 0 =>
+      transitivity (cos l * - sin phi * e0 + sin l * - sin phi * e1 + - - cos phi * e2);
+        [ring [Hp Hl] | rewrite H0, H1, H2; ring] end end end.
+  - match type of H0 with ?e0 = 0 => match type of H1 with ?e1 = 0 => match type of H2 with ?e2 = 0 =>
+      transitivity (- sin l * e0 + cos l * e1 + 0 * e2);
+        [ring [Hp Hl] | rewrite H0, H1, H2; ring] end end end.
+  - match type of H0 with ?e0 = 0 => match type of H1 with ?e1 = 0 => match type of H2 with ?e2 = 0 =>
+      transitivity (cos l * - cos phi * e0 + sin l * - cos phi * e1 + - sin phi * e2);
+        [ring [Hp Hl] | rewrite H0, H1, H2; ring] end end end.
+Qed.
+
+Lemma is_derive_same (f : R -> R) (t a b : R) : is_derive f t a -> is_derive f t b -> a = b.
+Proof. intros Ha Hb. rewrite <- (is_derive_unique f t a Ha). apply is_derive_unique. exact Hb. Qed.
+
+Lemma derive_dot3 (m0 m1 m2 u0 u1 u2 : R -> R) (t dm0 dm1 dm2 du0 du1 du2 : R) :
+  is_derive m0 t dm0 -> is_derive m1 t dm1 -> is_derive m2 t dm2 ->
+  is_derive u0 t du0 -> is_derive u1 t du1 -> is_derive u2 t du2 ->
+  is_derive (fun s => dot3 (m0 s) (m1 s) (m2 s) (u0 s) (u1 s) (u2 s)) t
+    (dot3 dm0 dm1 dm2 (u0 t) (u1 t) (u2 t) + dot3 (m0 t) (m1 t) (m2 t) du0 du1 du2).
+Proof.
+  intros H0 H1 H2 H3 H4 H5. unfold dot3.
+  auto_derive.
+  - split_all; try exact I; eexists; eassumption.
+  - rewrite (is_derive_unique (fun x : R => m0 x) t dm0 H0), (is_derive_unique (fun x : R => m1 x) t dm1 H1),
+      (is_derive_unique (fun x : R => m2 x) t dm2 H2), (is_derive_unique (fun x : R => u0 x) t du0 H3),
+      (is_derive_unique (fun x : R => u1 x) t du1 H4), (is_derive_unique (fun x : R => u2 x) t du2 H5). ring.
+Qed.
+
+(** transport rate of NavODE in terms of the position rates of NavODE *)
+Lemma rho_of_position_rates lat alt VN VE :
+  -90 < lat < 90 -> -6000000 < alt ->
+  let dlat := r2d * (VN / (nav_Rn lat + alt)) in
+  let dlon := r2d * (VE / ((nav_Re lat + alt) * cos (lat * d2r))) in
+  nav_om_N lat alt VN VE = (dlon * d2r + RATE_) * cos (lat * d2r) /\
+  nav_om_E lat alt VN VE = - (dlat * d2r) /\
+  nav_om_D lat alt VN VE = - ((dlon * d2r + RATE_) * sin (lat * d2r)).
+Proof.
+  intros Hl9 Ha. cbv zeta.
+  pose proof (cos_d2r_pos lat Hl9) as Hcos. fold d2r in Hcos.
+  pose proof (nav_Rn_lower lat) as HRn. pose proof (nav_Re_lower lat) as HRe.
+  pose proof PI_RGT_0 as Hpi.
+  unfold nav_om_N, nav_om_E, nav_om_D, nav_Omega_N, nav_Omega_E, nav_Omega_D, nav_rho_N, nav_rho_E, nav_rho_D, tan, r2d.
+  set (P := nav_Rn lat + alt). set (Q := nav_Re lat + alt).
+  assert (P <> 0) by (subst P; lra). assert (Q <> 0) by (subst Q; lra).
+  unfold d2r in *. split_all; field; split_all; lra.
+Qed.
+
+(** If w is the body rate of the inertial attitude C_ib = C_in C_nb that generate_imu hands to the rotation
+    spline (C_ib' = C_ib [w x]), then C_nb satisfies the attitude equation of the navigation ODE with that w. *)
+Lemma angular_rate_inverts_rhs
+  (lat lon alt VN VE VD c00 c01 c02 c10 c11 c12 c20 c21 c22 : R -> R) (t d00 d01 d02 d10 d11 d12 d20 d21 d22 w0 w1 w2 f0 f1 f2 : R) :
+  let lonI := fun s => lon_i (lon s) s in
+  let B00 := fun s => dot3 (mat_en_from_ll_m00 (lat s) (lonI s)) (mat_en_from_ll_m01 (lat s) (lonI s)) (mat_en_from_ll_m02 (lat s) (lonI s)) (c00 s) (c10 s) (c20 s) in
+  let B01 := fun s => dot3 (mat_en_from_ll_m00 (lat s) (lonI s)) (mat_en_from_ll_m01 (lat s) (lonI s)) (mat_en_from_ll_m02 (lat s) (lonI s)) (c01 s) (c11 s) (c21 s) in
+  let B02 := fun s => dot3 (mat_en_from_ll_m00 (lat s) (lonI s)) (mat_en_from_ll_m01 (lat s) (lonI s)) (mat_en_from_ll_m02 (lat s) (lonI s)) (c02 s) (c12 s) (c22 s) in
+  let B10 := fun s => dot3 (mat_en_from_ll_m10 (lat s) (lonI s)) (mat_en_from_ll_m11 (lat s) (lonI s)) (mat_en_from_ll_m12 (lat s) (lonI s)) (c00 s) (c10 s) (c20 s) in
+  let B11 := fun s => dot3 (mat_en_from_ll_m10 (lat s) (lonI s)) (mat_en_from_ll_m11 (lat s) (lonI s)) (mat_en_from_ll_m12 (lat s) (lonI s)) (c01 s) (c11 s) (c21 s) in
+  let B12 := fun s => dot3 (mat_en_from_ll_m10 (lat s) (lonI s)) (mat_en_from_ll_m11 (lat s) (lonI s)) (mat_en_from_ll_m12 (lat s) (lonI s)) (c02 s) (c12 s) (c22 s) in
+  let B20 := fun s => dot3 (mat_en_from_ll_m20 (lat s) (lonI s)) (mat_en_from_ll_m21 (lat s) (lonI s)) (mat_en_from_ll_m22 (lat s) (lonI s)) (c00 s) (c10 s) (c20 s) in
+  let B21 := fun s => dot3 (mat_en_from_ll_m20 (lat s) (lonI s)) (mat_en_from_ll_m21 (lat s) (lonI s)) (mat_en_from_ll_m22 (lat s) (lonI s)) (c01 s) (c11 s) (c21 s) in
+  let B22 := fun s => dot3 (mat_en_from_ll_m20 (lat s) (lonI s)) (mat_en_from_ll_m21 (lat s) (lonI s)) (mat_en_from_ll_m22 (lat s) (lonI s)) (c02 s) (c12 s) (c22 s) in
+  let rhs := fun F : R -> R -> R -> R -> R -> R -> R -> R -> R -> R -> R -> R -> R -> R -> R -> R -> R -> R -> R -> R -> R -> R =>
+    F (lat t) (lon t) (alt t) (VN t) (VE t) (VD t) (c00 t) (c01 t) (c02 t) (c10 t) (c11 t) (c12 t) (c20 t) (c21 t) (c22 t) w0 w1 w2 f0 f1 f2 in
+  -90 < lat t < 90 -> -6000000 < alt t ->
+  is_derive lat t (rhs nav_rhs_lat) -> is_derive lon t (rhs nav_rhs_lon) ->
+  is_derive c00 t d00 ->
+  is_derive c01 t d01 ->
+  is_derive c02 t d02 ->
+  is_derive c10 t d10 ->
+  is_derive c11 t d11 ->
+  is_derive c12 t d12 ->
+  is_derive c20 t d20 ->
+  is_derive c21 t d21 ->
+  is_derive c22 t d22 ->
+  is_derive B00 t (dot3 (B00 t) (B01 t) (B02 t) (skew00 w0 w1 w2) (skew10 w0 w1 w2) (skew20 w0 w1 w2)) ->
+  is_derive B01 t (dot3 (B00 t) (B01 t) (B02 t) (skew01 w0 w1 w2) (skew11 w0 w1 w2) (skew21 w0 w1 w2)) ->
+  is_derive B02 t (dot3 (B00 t) (B01 t) (B02 t) (skew02 w0 w1 w2) (skew12 w0 w1 w2) (skew22 w0 w1 w2)) ->
+  is_derive B10 t (dot3 (B10 t) (B11 t) (B12 t) (skew00 w0 w1 w2) (skew10 w0 w1 w2) (skew20 w0 w1 w2)) ->
+  is_derive B11 t (dot3 (B10 t) (B11 t) (B12 t) (skew01 w0 w1 w2) (skew11 w0 w1 w2) (skew21 w0 w1 w2)) ->
+  is_derive B12 t (dot3 (B10 t) (B11 t) (B12 t) (skew02 w0 w1 w2) (skew12 w0 w1 w2) (skew22 w0 w1 w2)) ->
+  is_derive B20 t (dot3 (B20 t) (B21 t) (B22 t) (skew00 w0 w1 w2) (skew10 w0 w1 w2) (skew20 w0 w1 w2)) ->
+  is_derive B21 t (dot3 (B20 t) (B21 t) (B22 t) (skew01 w0 w1 w2) (skew11 w0 w1 w2) (skew21 w0 w1 w2)) ->
+  is_derive B22 t (dot3 (B20 t) (B21 t) (B22 t) (skew02 w0 w1 w2) (skew12 w0 w1 w2) (skew22 w0 w1 w2)) ->
+  d00 = rhs nav_rhs_C00 /\
+  d01 = rhs nav_rhs_C01 /\
+  d02 = rhs nav_rhs_C02 /\
+  d10 = rhs nav_rhs_C10 /\
+  d11 = rhs nav_rhs_C11 /\
+  d12 = rhs nav_rhs_C12 /\
+  d20 = rhs nav_rhs_C20 /\
+  d21 = rhs nav_rhs_C21 /\
+  d22 = rhs nav_rhs_C22.
+Proof.
+  cbv zeta beta.
+  intros Hl9 Ha Hlat Hlon C00 C01 C02 C10 C11 C12 C20 C21 C22 B00 B01 B02 B10 B11 B12 B20 B21 B22.
+  unfold nav_rhs_lat in Hlat. unfold nav_rhs_lon in Hlon.
+  destruct (rho_of_position_rates (lat t) (alt t) (VN t) (VE t) Hl9 Ha) as [ON [OE OD]]. cbv zeta in ON, OE, OD.
+  destruct (moving_frame_derive lat lon t _ _ Hlat Hlon) as [D00 [D01 [D02 [D10 [D11 [D12 [D20 [D21 D22]]]]]]]].
+  set (wN := (r2d * (VE t / ((nav_Re (lat t) + alt t) * cos (lat t * d2r))) * d2r + RATE_) * cos (lat t * d2r)) in *.
+  set (wE := - (r2d * (VN t / (nav_Rn (lat t) + alt t)) * d2r)) in *.
+  set (wD := - ((r2d * (VE t / ((nav_Re (lat t) + alt t) * cos (lat t * d2r))) * d2r + RATE_) * sin (lat t * d2r))) in *.
+  unfold nav_rhs_C00, nav_rhs_C01, nav_rhs_C02, nav_rhs_C10, nav_rhs_C11, nav_rhs_C12, nav_rhs_C20, nav_rhs_C21, nav_rhs_C22.
+  rewrite ON, OE, OD.
+  (* column 0 *)
+  destruct (attitude_column_solve (lat t) (lon_i (lon t) t) wN wE wD (c00 t) (c10 t) (c20 t) d00 d10 d20
+     (dot3 (c00 t) (c01 t) (c02 t) (skew00 w0 w1 w2) (skew10 w0 w1 w2) (skew20 w0 w1 w2))
+     (dot3 (c10 t) (c11 t) (c12 t) (skew00 w0 w1 w2) (skew10 w0 w1 w2) (skew20 w0 w1 w2))
+     (dot3 (c20 t) (c21 t) (c22 t) (skew00 w0 w1 w2) (skew10 w0 w1 w2) (skew20 w0 w1 w2))) as [S00 [S10 S20]].
+  { intros k Hk. destruct k as [|[|[|k]]]; [| | |exfalso; lia]; cbv beta iota.
+    - etransitivity; [exact (is_derive_same _ t _ _ (derive_dot3 _ _ _ _ _ _ _ _ _ _ _ _ _ D00 D01 D02 C00 C10 C20) B00)|]. unfold dot3. ring.
+    - etransitivity; [exact (is_derive_same _ t _ _ (derive_dot3 _ _ _ _ _ _ _ _ _ _ _ _ _ D10 D11 D12 C00 C10 C20) B10)|]. unfold dot3. ring.
+    - etransitivity; [exact (is_derive_same _ t _ _ (derive_dot3 _ _ _ _ _ _ _ _ _ _ _ _ _ D20 D21 D22 C00 C10 C20) B20)|]. unfold dot3. ring. }
+  destruct (attitude_column_solve (lat t) (lon_i (lon t) t) wN wE wD (c01 t) (c11 t) (c21 t) d01 d11 d21
+     (dot3 (c00 t) (c01 t) (c02 t) (skew01 w0 w1 w2) (skew11 w0 w1 w2) (skew21 w0 w1 w2))
+     (dot3 (c10 t) (c11 t) (c12 t) (skew01 w0 w1 w2) (skew11 w0 w1 w2) (skew21 w0 w1 w2))
+     (dot3 (c20 t) (c21 t) (c22 t) (skew01 w0 w1 w2) (skew11 w0 w1 w2) (skew21 w0 w1 w2))) as [S01 [S11 S21]].
+  { intros k Hk. destruct k as [|[|[|k]]]; [| | |exfalso; lia]; cbv beta iota.
+    - etransitivity; [exact (is_derive_same _ t _ _ (derive_dot3 _ _ _ _ _ _ _ _ _ _ _ _ _ D00 D01 D02 C01 C11 C21) B01)|]. unfold dot3. ring.
+    - etransitivity; [exact (is_derive_same _ t _ _ (derive_dot3 _ _ _ _ _ _ _ _ _ _ _ _ _ D10 D11 D12 C01 C11 C21) B11)|]. unfold dot3. ring.
+    - etransitivity; [exact (is_derive_same _ t _ _ (derive_dot3 _ _ _ _ _ _ _ _ _ _ _ _ _ D20 D21 D22 C01 C11 C21) B21)|]. unfold dot3. ring. }
+  destruct (attitude_column_solve (lat t) (lon_i (lon t) t) wN wE wD (c02 t) (c12 t) (c22 t) d02 d12 d22
+     (dot3 (c00 t) (c01 t) (c02 t) (skew02 w0 w1 w2) (skew12 w0 w1 w2) (skew22 w0 w1 w2))
+     (dot3 (c10 t) (c11 t) (c12 t) (skew02 w0 w1 w2) (skew12 w0 w1 w2) (skew22 w0 w1 w2))
+     (dot3 (c20 t) (c21 t) (c22 t) (skew02 w0 w1 w2) (skew12 w0 w1 w2) (skew22 w0 w1 w2))) as [S02 [S12 S22]].
+  { intros k Hk. destruct k as [|[|[|k]]]; [| | |exfalso; lia]; cbv beta iota.
+    - etransitivity; [exact (is_derive_same _ t _ _ (derive_dot3 _ _ _ _ _ _ _ _ _ _ _ _ _ D00 D01 D02 C02 C12 C22) B02)|]. unfold dot3. ring.
+    - etransitivity; [exact (is_derive_same _ t _ _ (derive_dot3 _ _ _ _ _ _ _ _ _ _ _ _ _ D10 D11 D12 C02 C12 C22) B12)|]. unfold dot3. ring.
+    - etransitivity; [exact (is_derive_same _ t _ _ (derive_dot3 _ _ _ _ _ _ _ _ _ _ _ _ _ D20 D21 D22 C02 C12 C22) B22)|]. unfold dot3. ring. }
+  rewrite S00, S01, S02, S10, S11, S12, S20, S21, S22.
+  unfold dot3, cross0, cross1, cross2, skew00, skew01, skew02, skew10, skew11, skew12, skew20, skew21, skew22.
+  split_all; ring.
+Qed.
